@@ -1,5 +1,6 @@
 import MQ.Inv.RingMain
 import MQ.Inv.AddFrame
+import MQ.Inv.AddRun
 /-!
 # C10 — add_stream starts at the parent position with no gap and no side effects
 -/
@@ -62,5 +63,30 @@ the call's dispatch only) -/
 theorem C10_outer_only_from_dispatch (σ : St) (t inp : Nat)
     (h : ((stepRun σ t inp).2.th t).outer = .addStream) : (σ.th t).outer = .addStream :=
   outer_add_of_step σ t inp h
+
+/-- C10 (no side effects — every execution, no exclusion: the F1 window, the futures conversions and teardown are
+all inside): in every state reachable from the initial one by *any* sequence of labels, a thread whose call is
+`add_stream` and that has not returned yet is inside `add_stream`'s own program (`AddI`, an inductive invariant over
+every label, `MQ/Inv/AddRun.lean`), so each of its steps leaves the queue's data alone (`C10_add_stream_frame`):
+nothing is consumed, destroyed, reordered or re-positioned on behalf of the caller or of any other stream. -/
+theorem C10_add_stream_is_data_neutral_in_every_run (N : Nat) (bcast : Bool) (wait : WaitK) (fut : Bool)
+    (ls : List Label) (t inp : Nat) :
+    let σ := ls.foldl step (init N bcast wait fut)
+    (σ.th t).outer = .addStream → (σ.th t).pc ≠ .idle →
+    let σ' := (stepRun σ t inp).2
+    ((σ'.th t).pc.inAdd = true ∧ (σ'.th t).outer = .addStream ∧ (σ'.th t).ns = (σ.th t).ns) ∧
+    σ'.head = σ.head ∧ σ'.tc = σ.tc ∧ σ'.writers = σ.writers ∧ σ'.tag = σ.tag ∧ σ'.cont = σ.cont ∧ σ'.ref = σ.ref ∧
+    σ'.log = σ.log ∧ σ'.drops = σ.drops ∧ σ'.noReader = σ.noReader ∧
+    (∀ s', s' ≠ (σ.th t).ns → σ'.pos s' = σ.pos s' ∧ σ'.dlv s' = σ.dlv s' ∧ σ'.start s' = σ.start s' ∧
+      σ'.ncons s' = σ.ncons s') := by
+  intro σ ho hi
+  rcases addI_run N bcast wait fut ls t ho with h | h
+  · exact absurd h hi
+  · exact C10_add_stream_frame σ t inp ho h
+
+/-- non-vacuity: after the dispatch of an `add_stream` call on the initial receiver handle the hypotheses hold -/
+example : let σ := [Label.call 5 .addStream 1 0 2 1].foldl step (init 4 true .busy false)
+    (σ.th 5).outer = .addStream ∧ (σ.th 5).pc = .a1 := by
+  decide
 
 end MQ
